@@ -28,7 +28,8 @@ ASSUMPTIONS = ["subscribers are callables returning awaitables (objects with asy
 REQUIRED_OBS = ["must_verdicts", "must_not_verdicts", "repeat_frames", "raising_subscribers",
                 "zone_to_ac_forwarding", "unsubscribed_silent", "double_subscription",
                 "after_reinit", "single_field_changes", "self_unsubscribed_in_callback",
-                "bound_method_subscribers", "subscribers_failing_when_called"]
+                "bound_method_subscribers", "subscribers_failing_when_called",
+                "same_callable_on_both_ac_channels"]
 SOAK = True   # also judged by the whole-run monitors of the soak sessions (vf/soak.py)
 BUDGET = {"quick": 100, "thorough": 1500}
 
@@ -104,6 +105,28 @@ def run_case(case):
             for z in ac.zones:
                 zone_owner.setdefault(z.zone_id, []).append(ac.ac_id)
                 mk("zone", z.zone_id, z, z.subscribe, z.unsubscribe)
+        # one callable per AC that the application registers on BOTH channels of that AC
+        # (subscribe and subscribe_ac_state) and takes off them independently, in any order
+        duals = []
+        for ac in at.air_conditioners:
+            d = {"sub": H.Sub(log, f"dual:{ac.ac_id}", hashv=rnd.getrandbits(20)), "ac": ac,
+                 "ent": ac.ac_id, "g": False, "st": False}
+            duals.append(d)
+
+        def toggle_dual(d):
+            ch = rnd.choice(["g", "st"])
+            ac = d["ac"]
+            if d[ch]:
+                (ac.unsubscribe if ch == "g" else ac.unsubscribe_ac_state)(d["sub"])
+            else:
+                (ac.subscribe if ch == "g" else ac.subscribe_ac_state)(d["sub"])
+            d[ch] = not d[ch]
+            obs["same_callable_on_both_ac_channels"] = obs.get(
+                "same_callable_on_both_ac_channels", 0) + (1 if d["g"] and d["st"] else 0)
+
+        for d in duals:
+            for _ in range(rnd.randint(0, 3)):
+                toggle_dual(d)
         for s in subs:
             if rnd.random() < 0.85:
                 s["attach"](s["sub"])
@@ -137,6 +160,8 @@ def run_case(case):
 
         last_raw = None
         for step in range(case["n"]):
+            if duals and rnd.random() < 0.35:
+                toggle_dual(rnd.choice(duals))
             if rnd.random() < 0.3:
                 cand = [x for x in subs if x["on"] and not x["twice"] and x["sub"].action is None]
                 if cand:
@@ -226,6 +251,27 @@ def run_case(case):
                                  "detail": dict(info, upper=upper)})
                 if s["sub"].raises and got:
                     obs["raising_subscribers"] = obs.get("raising_subscribers", 0) + 1
+            for d in duals:
+                got = calls.get(d["sub"].name, [])
+                acc = [ch for ch in changes if ch[1] == "ac" and ch[2] == d["ent"]]
+                zch = [ch for ch in changes if ch[1] == "zone"
+                       and d["ent"] in zone_owner.get(ch[2], [])]
+                on_any = d["g"] or d["st"]
+                must = (on_any and any(ch[3] is True for ch in acc)) or \
+                       (d["g"] and any(ch[3] is True for ch in zch))
+                may = (on_any and any(ch[4] is not False for ch in acc)) or \
+                      (d["g"] and any(ch[4] is not False for ch in zch))
+                info = {"subscriber": d["sub"].name, "calls": len(got), "frame": raw, "step": step,
+                        "general": d["g"], "ac_state": d["st"]}
+                if must and not got:
+                    viol.append({"mechanism": "subscriber-not-called-on-change:ac_both_channels",
+                                 "detail": info})
+                elif not may and got:
+                    viol.append({"mechanism": ("unsubscribed-subscriber-called" if not on_any else
+                                               "subscriber-called-without-change:ac_both_channels"),
+                                 "detail": info})
+                elif must:
+                    obs["must_verdicts"] = obs.get("must_verdicts", 0) + 1
             for s in subs:
                 # what was done from inside callbacks takes effect in the order it happened
                 for what in s.pop("pending", ()):
